@@ -515,6 +515,16 @@ func (s *persistentHybridSearch) Execute() ([]HybridSearchResult, error) {
 	var allResults []HybridSearchResult
 	resultsMu := sync.Mutex{}
 
+	// An autocut looks at the shape of the whole score curve. For a
+	// vector-only query the curve is that of the merged ranking, so the
+	// sources are asked for their plain top-k and the cut is applied after the
+	// merge; otherwise every source applies it to its own list as before.
+	vectorOnly := s.vectorQuery != nil && len(s.textQueries) == 0
+	sourceCutoff := s.cutoff
+	if vectorOnly {
+		sourceCutoff = -1
+	}
+
 	// Search memtables (newest first)
 	memtables := s.storage.memtableQueue.list()
 	for i := len(memtables) - 1; i >= 0; i-- {
@@ -524,7 +534,7 @@ func (s *persistentHybridSearch) Execute() ([]HybridSearchResult, error) {
 		search := mt.index.NewSearch().
 			WithK(s.k).
 			WithScoreAggregation(s.scoreAggregation).
-			WithCutoff(s.cutoff).
+			WithCutoff(sourceCutoff).
 			WithFusion(s.fusion)
 
 		if s.vectorQuery != nil {
@@ -585,7 +595,7 @@ func (s *persistentHybridSearch) Execute() ([]HybridSearchResult, error) {
 				search := idx.NewSearch().
 					WithK(s.k).
 					WithScoreAggregation(s.scoreAggregation).
-					WithCutoff(s.cutoff).
+					WithCutoff(sourceCutoff).
 					WithFusion(s.fusion)
 
 				if s.vectorQuery != nil {
@@ -639,11 +649,21 @@ func (s *persistentHybridSearch) Execute() ([]HybridSearchResult, error) {
 	// A vector-only query scores by distance (lower is better): keep the k
 	// nearest of all sources, not the k largest scores. The result is then
 	// presented like HybridSearchIndex presents it (descending score).
-	if s.vectorQuery != nil && len(s.textQueries) == 0 && len(merged) > s.k {
+	if vectorOnly && (len(merged) > s.k || s.cutoff != -1) {
 		sort.Slice(merged, func(i, j int) bool {
 			return merged[i].Score < merged[j].Score
 		})
-		merged = merged[:s.k]
+		if len(merged) > s.k {
+			merged = merged[:s.k]
+		}
+		if s.cutoff != -1 && len(merged) > 0 {
+			// the cut a vector index applies to its own ascending top-k
+			scores := make([]float32, len(merged))
+			for i, r := range merged {
+				scores[i] = float32(r.Score)
+			}
+			merged = merged[:Autocut(scores, s.cutoff)]
+		}
 	}
 
 	// Sort by score descending and limit to k
